@@ -264,6 +264,7 @@ package web
 //@   ghost contG slice
 //@   ghost outContG slice
 //@   requires handler != nil && handler.store != nil
+//@   requires [request-handlers-hold-no-lock] forall l int :: !has($held, l)
 //@   at call decodeCont#1 before
 //@     assert [C03:the-continuations-of-the-request-are-decoded] $arg0 == query.Continuations
 //@   at call decodeCont#1
